@@ -12,6 +12,7 @@ RULE = ("cases = random maps (CP and non-CP, d_in, d_out in 1..4, real/complex) 
         "Stinespring-generated square channels d in 2..4, rank 1..6; the returned dual is applied by the *model* (explicit Kraus loop or "
         "Choi contraction), never by the library's apply_channel; signature (monitor, form, d_in, d_out, class), non-trivial when d_in != d_out, "
         "complex or non-CP")
+THOROUGH_REPEAT = 10  # the thorough tier runs its randomised case kinds this many times (new inputs each time)
 ASSUMPTIONS = [
     "Hilbert-Schmidt inner product <A,B> = Tr(A^dagger B); tolerance 1e-9 relative",
     "complementary_channel accepts square Kraus operators only (documented ValueError otherwise)",
